@@ -147,6 +147,9 @@ expect("DomCHK mutant last_changed violates Inv (N=5, <= 7 edges): the fixpoint 
 r = tlc("algo/TarjanPearce", "MCTarjanPearceNeg_entry_index.cfg", workers=6, timeout=300)
 expect("TarjanPearce mutant entry_index violates Inv: lowlink compared with the index a node got on entry", any("Invariant Inv is violated" in e for e in r.errors), str(r.errors[:1]))
 
+r = tlc("algo/NegCycle", "MCNegCycleNeg_no_record.cfg", workers=8, timeout=600)
+expect("NegCycle mutant no_record violates VerdictOK: find_negative_cycle as shipped before 0a08617 (the relaxable edge not recorded)", any("Invariant VerdictOK is violated" in e for e in r.errors), str(r.errors[:1]))
+
 bad = [r for r in results if not r["ok"]]
 os.makedirs(os.path.join(VERIF, "evidence"), exist_ok=True)
 json.dump({"tests": results, "failed": len(bad)}, open(os.path.join(VERIF, "evidence", "selftest.json"), "w"), indent=1)
